@@ -5,7 +5,10 @@
    validated against CTreeLin.tla: TLC infers the linearization points; Query
    and Walk are interval operations; the final content must be the
    specification's (i.e. that of a sequential order). An operation not
-   returning within 10 s is a 'hang' event no action accepts.
+   returning within 10 s is a 'hang' event no action accepts.  Contention rounds
+   (10 goroutines hammering three hot leaves with Query/Walk/handle Update/Add on
+   existing paths/Delete+re-Add for 150 ms each) must keep every goroutine
+   progressing ('contend' marker; a stuck round is a 'hang').
 2. The same driver built with -race: the race detector monitors the recorded
    executions; every report is normalised to a function-pair signature.
 3. CTree.tla (the sequential meaning the histories are held to) is
@@ -19,7 +22,7 @@ import vlib
 import racelib
 
 PID = "C10"
-TIERS = {"quick": dict(n=1200, race_n=1500, shards=48), "thorough": dict(n=40000, race_n=30000, shards=96)}
+TIERS = {"quick": dict(n=1200, race_n=1500, shards=48, contend=40), "thorough": dict(n=40000, race_n=30000, shards=96, contend=600)}
 
 
 def is_boundary(e):
@@ -36,7 +39,7 @@ def run(tier):
     mc = vlib.model_check("CTreeMC.tla", "CTree_quick.cfg", os.path.join(work, "mc"), quiet_prefix='<<"STATE"')
 
     tr = os.path.join(work, "traces")
-    d = vlib.drv_stats(vlib.run_driver(drv, ["ctree", "conc", "-n", str(T["n"]), "-out", tr, "-shards", str(T["shards"])]))
+    d = vlib.drv_stats(vlib.run_driver(drv, ["ctree", "conc", "-n", str(T["n"]), "-contend", str(T["contend"]), "-out", tr, "-shards", str(T["shards"])]))
     files = sorted(os.path.join(tr, f) for f in os.listdir(tr) if f.startswith("conc-"))
     tv = time.time()
     stats, rejs = vlib.validate_traces("CTreeLin.tla", "CTreeLin.cfg", files, os.path.join(work, "val"), is_boundary, deque=True,
@@ -67,8 +70,10 @@ def run(tier):
         samples=vlib.sample_lines(files, 3, skip=lambda l: b'"reset"' in l or b'"inv"' in l),
         evaluations=stats["events"], distinct_nontrivial=distinct,
         rule="%d concurrent histories (2-16 goroutines, 12-55 operations, <=12 distinct paths of depth <=3, Add/Get/Query/Walk/Delete/UpdateLeaf, random delay "
-             "in the reader->writer lock exchange of Add) validated against CTreeLin.tla with inferred linearization points; %d more histories run under the Go "
-             "race detector; distinct_nontrivial = distinct event lines other than reset" % (T["n"], T["race_n"]),
+             "in the reader->writer lock exchange of Add) validated against CTreeLin.tla with inferred linearization points; %d contention rounds of 150 ms "
+             "(10 goroutines on three hot leaves: queries and walks reading values, updates through retained handles, adds on existing paths, delete+re-add) "
+             "in which every goroutine must keep completing operations; %d more histories run under the Go "
+             "race detector; distinct_nontrivial = distinct event lines other than reset" % (T["n"], T["contend"], T["race_n"]),
         exhaustive=False, undecided_histories=stats["undecided"], hangs=d.get("hangs", 0) + dr.get("hangs", 0), race_signatures=sorted(races), rejected=len(rejs),
         known_findings_hit=outcome.known, model_drift=0,
         checker_cmd="tlc CTreeMC.tla; tlc CTreeLin.tla per shard (StateDeque, early exit); verifdrv-race ctree conc"),
